@@ -1,47 +1,98 @@
 """C14 - concurrent runs with different run keys stay independent.
 
 Carriers: bluesky/run_engine.py: RunEngine._create, _declare_stream, _read, _monitor, _unmonitor, _save, _drop, _kickoff,
-_collect, _configure, _close_run, _open_run; bluesky/preprocessors.py: set_run_key_wrapper._set_run_key.
-Frame contracts: with several runs open, each handler applies the message to the bundler registered under the
-message's run key and to no other bundler; a key that is not open raises IllegalMessageSequence (read / configure pass
-through to the device) without touching any bundler; opening a key that is already open is rejected without
-disturbing the open runs; _set_run_key fills in only a missing run key.  (Per-run lifecycle / numbering are C01 / C05:
-every RunBundler composes its documents from its own compose_run, i.e. its own start uid.)
+_collect, _configure, _close_run, _open_run, _checkpoint, _rewind, _reset_checkpoint_state_meth / _coro;
+bluesky/bundlers.py: RunBundler.create / read / save / close_run / reset_checkpoint_state / rewind (executed, contract = C05);
+bluesky/preprocessors.py: set_run_key_wrapper, set_run_key_wrapper._set_run_key, msg_mutator, baseline_wrapper (+ plan_mutator).
+
+F   (T1, frame contracts, recording fake bundlers) with several runs open - the default key None, a string key and *falsy but valid*
+    keys (0, '') among them - each handler applies the message to the bundler registered under the message's run key and to no
+    other bundler; a key that is not open (a falsy one while the default run is open included) raises IllegalMessageSequence
+    (read / configure pass through to the device) without touching any bundler; the handlers that are implicit checkpoints
+    (close_run, monitor, unmonitor) refresh the checkpoint state of *every* run that stays open; opening a key
+    that is already open is rejected without disturbing the open runs; a new key gets its own bundler.
+K   set_run_key_wrapper, nested to depth 2, for run keys of every kind (arbitrary int, arbitrary str, an object of arbitrary
+    truth value, (), False): a message that carries a key (anything but None) keeps it, an un-keyed one gets the key of the
+    innermost wrapper; the other fields are kept; the answer of the RunEngine reaches the plan.  baseline_wrapper (the preprocessor
+    that inserts messages for a keyed run) over two interleaved runs: every inserted baseline message carries the key of the run
+    whose open_run / close_run triggered it.
+I   (interleaved runs under an interruption; the real RunEngine handlers over two *real* RunBundlers with symbolic sequence
+    counters 1 <= snap <= next, keys of every kind) any (explicit / implicit) checkpoint - caused by a message of the *other* run
+    or by none in particular -, then events of the two runs in any order of an enumerated shape, a rejected duplicate open_run in
+    between, then a rewind (what resume / a suspension do) and the replay of exactly what _rewind hands back, then close_run:
+    run by run, the documents carry the run's own start uid, a replayed event gets the seq_num it had the first time (numbering
+    continues from where the run was at the checkpoint, whatever happened to the other run), and stop.num_events counts the
+    run's own events.  (Per-run lifecycle / numbering of a single bundler are C01 / C05.)
+T2  (the real _run / __call__ / resume / abort / stop / halt / request_pause / request_suspend under the asyncio model, an arbitrary plan
+    over open_run / close_run of two run keys - a string and the falsy key 0 -, checkpoint / clear_checkpoint / a registered command,
+    abstract bundlers, every schedule of pause / suspension / abort requests, every post-pause decision) whatever an interruption does
+    to one open run - interruption record, monitors suspended / restored, rewind, checkpoint state reset / cleared, monitors cleared in
+    the epilogue - it does to every open run; a close_run of the plan closes the run opened under its key; when the engine is idle
+    again every run that was opened has been closed exactly once.
 """
+import collections
+import os
+
 from .lib import *
 from .re_lib import *
 
 PROP = "C14"
 IMS = "bluesky.utils:IllegalMessageSequence"
-TRUSTED = EM_ASSUMPTIONS + ["bundlers are abstract here (recording fakes): only which bundler receives which call is observed",
-                            "devices: read / configure / kickoff return arbitrary values; check_supports and warn_if_msg_args_or_kwargs are effect-free"]
-NOT_DECIDED = "interleavings of concurrent runs under interruptions (T2); run keys on messages inserted by preprocessors (they carry run=None)"
+PP = "bluesky.preprocessors"
+TRUSTED = EM_ASSUMPTIONS + ["F: bundlers are abstract (recording fakes): only which bundler receives which call is observed",
+                            "devices: read / configure / kickoff return arbitrary values; check_supports and warn_if_msg_args_or_kwargs are effect-free",
+                            "I: the caching fragment of RunEngine._run is the C04 invariant (INV): every replayable message executed since the most recent "
+                            "checkpoint is appended to the message cache, and resume / a suspension replay exactly what _rewind returns before "
+                            "the interrupted plan goes on; the harness appends the executed messages to the cache accordingly",
+                            "I: enumerated shape: two runs, one stream each, up to two events between the checkpoint and the interruption; "
+                            "counters, readings and run keys are symbolic / representative of their kind",
+                            "run keys are hashable values used only through ==, hash, `is None` and truth testing"]
+NOT_DECIDED = ("interruptions landing *inside* a bundler method that awaits a device (T2 runs abstract bundlers, I runs the real ones between scheduling points); "
+               "monitor / collect streams of concurrent runs under a rewind (C05, per bundler); more than two concurrent runs in T2 / I (three in F); "
+               "run keys on messages inserted by preprocessors other than set_run_key_wrapper / baseline_wrapper (monitor_during, fly_during ... insert run=None "
+               "messages, which an enclosing set_run_key_wrapper keys)")
 
 # handler -> (bundler method, behaviour when the key is not open)
 HANDLERS = {"_create": ("create", "ims"), "_declare_stream": ("declare_stream", "ims"), "_save": ("save", "ims"), "_drop": ("drop", "ims"),
             "_monitor": ("monitor", "ims"), "_unmonitor": ("unmonitor", "ims"), "_kickoff": ("kickoff", "ims"), "_collect": ("collect", "ims"),
             "_read": ("read", "pass"), "_configure": ("configure", "pass"), "_close_run": ("close_run", "ims")}
+IMPLICIT_CHECKPOINTS = ("_close_run", "_monitor", "_unmonitor")
+OPEN_KEYS = [None, "a", 0]            # the default key, a string, a falsy key that is a perfectly valid key
+ABSENT_KEYS = ["", "zz"]              # not open: a falsy one (must not fall back to the default run) and an ordinary one
+NAMES = {None: "default", "a": "a", 0: "zero", "": "empty", "zz": "zz"}
 
 
-def fake_bundler(log, key):
+def fake_bundler(log, key, resets=None):
     def method(name):
         def m(I_, o, a, k):
             log.append((key, name, tuple(a)))
             return Ready("result-" + key)
         return m
-    return Opaque(f"bundler[{key}]", {"token": "bundler", "truth": True, "attrs": {"bundling": False, "run_is_open": True},
-                                      "methods": {m: method(m) for m in set(v[0] for v in HANDLERS.values())}, "isinstance_default": False})
 
+    def reset(I_, o, a, k):
+        if resets is not None:
+            resets.append(key)
+    methods = {m: method(m) for m in set(v[0] for v in HANDLERS.values())}
+    methods["reset_checkpoint_state"] = reset
+    return Opaque(f"bundler[{key}]", {"token": "bundler", "truth": True, "attrs": {"bundling": False, "run_is_open": True},
+                                      "methods": methods, "isinstance_default": False})
+
+
+def frame_name(h, absent):
+    return f"{RE}.{h}#frame[applies the message to the bundler of its run key only; unknown key: {'rejected' if absent == 'ims' else 'device only'}]"
+
+
+CKPT = "#ensures[an implicit checkpoint caused by one run's message refreshes the checkpoint state of every run that stays open]"
 
 for _h, (_m, _absent) in HANDLERS.items():
     def _mk(h=_h, meth=_m, absent=_absent):
-        @task(h, PROP, functions=[f"{RE}.{h}"],
-              expect=[f"{RE}.{h}#frame[applies the message to the bundler of its run key only; unknown key: {'rejected' if absent == 'ims' else 'device only'}]"])
+        @task(h, PROP, functions=[f"{RE}.{h}"] + ([f"{RE}._reset_checkpoint_state_meth", f"{RE}._reset_checkpoint_state_coro"] if h in IMPLICIT_CHECKPOINTS else []),
+              expect=[frame_name(h, absent)] + ([f"{RE}.{h}{CKPT}"] if h in IMPLICIT_CHECKPOINTS else []))
         def t(I):
             w = I.w
             env = Env(I)
             install_tracer(I, [])
-            log = []
+            log, resets = [], []
             dev_calls = []
             dev = Opaque("dev", {"token": "dev", "truth": True, "attrs": {"name": "dev"}, "isinstance_default": True,
                                  "methods": {"read": lambda I_, o, a, k: dev_calls.append("read") or {"x": {"value": 1, "timestamp": 0}},
@@ -50,30 +101,41 @@ for _h, (_m, _absent) in HANDLERS.items():
             w.stubs[(MR, "check_supports")] = native(lambda I_, a, k: a[0])
             w.stubs[(MR, "warn_if_msg_args_or_kwargs")] = native(lambda I_, a, k: None)
             w.stubs[(MR, "trace")] = Opaque("trace", {"methods": {"get_current_span": lambda *a: None}})
-            bundlers = {None: fake_bundler(log, "default"), "a": fake_bundler(log, "a"), "b": fake_bundler(log, "b")}
-            names = {None: "default", "a": "a", "b": "b"}
-            re_ = make_re(I, env, _run_bundlers=dict(bundlers))
-            I.call_hooks[f"{RE}._reset_checkpoint_state_coro"] = lambda I_, f, a, k: ret(Ready(None))
+            bundlers = {k: fake_bundler(log, NAMES[k], resets) for k in OPEN_KEYS}
+            old = MsgVal("custom", None, (), {}, None)
+            re_ = make_re(I, env, _run_bundlers=dict(bundlers), _msg_cache=collections.deque([old]))
             I.call_hooks[f"{RE}._add_status_to_group"] = lambda I_, f, a, k: ret(None)
             I.call_hooks[f"{RE}._close_run_trace"] = lambda I_, f, a, k: ret(None)
-            key = w.choose([None, "a", "b", "zz"], "run key of the message")
+            key = w.choose(OPEN_KEYS + ABSENT_KEYS, "run key of the message")
             msg = MsgVal(h[1:], dev, (), {}, key)
             r = call_async(I, I.getattr(re_, h), msg)
-            name = f"{RE}.{h}#frame[applies the message to the bundler of its run key only; unknown key: {'rejected' if absent == 'ims' else 'device only'}]"
-            rp = {"replay": "runkeys.independent"}
-            if key == "zz":
+            name = frame_name(h, absent)
+            rp = {"replay": "runkeys.frame", "handler": h, "key": NAMES[key]}
+            unchanged = len(re_._run_bundlers) == len(bundlers) and all(k in re_._run_bundlers and re_._run_bundlers[k] is bundlers[k] for k in bundlers)
+            if key in ABSENT_KEYS:
                 if absent == "ims":
-                    w.check(name, r[0] == "raise" and exc_is(I, r[1], IMS) and log == [] and dev_calls == [] and set(re_._run_bundlers) == {None, "a", "b"}, rp)
+                    w.check(name, r[0] == "raise" and exc_is(I, r[1], IMS) and log == [] and dev_calls == [] and unchanged and resets == [], rp)
                 else:
-                    w.check(name, r[0] == "ok" and log == [] and dev_calls == [h[1:]], rp)
+                    w.check(name, r[0] == "ok" and log == [] and dev_calls == [h[1:]] and unchanged, rp)
                 return
-            ok = r[0] == "ok" and [(k, m) for k, m, a in log] == [(names[key], meth)] and log[0][2][0] is msg
+            ok = r[0] == "ok" and [(k, m) for k, m, a in log] == [(NAMES[key], meth)] and log[0][2][0] is msg
+            rest = [k for k in OPEN_KEYS if k != key]
             if h == "_close_run":
-                ok = ok and set(re_._run_bundlers) == {None, "a", "b"} - {key}
+                ok = ok and len(re_._run_bundlers) == len(rest) and all(k in re_._run_bundlers and re_._run_bundlers[k] is bundlers[k] for k in rest)
             else:
-                ok = ok and set(re_._run_bundlers) == {None, "a", "b"} and all(re_._run_bundlers[k] is bundlers[k] for k in bundlers)
+                ok = ok and unchanged
             w.check(name, ok, rp)
+            if h in IMPLICIT_CHECKPOINTS:
+                still = rest if h == "_close_run" else OPEN_KEYS
+                cache = I.getattr(re_, "_msg_cache")
+                w.check(f"{RE}.{h}{CKPT}", r[0] == "ok" and set(NAMES[k] for k in still) <= set(resets) and cache is not None and len(cache) == 0,
+                        dict(rp, replay="runkeys.checkpoint_all", resets=sorted(resets)))
     _mk()
+
+
+def _open_re(I, env, bundlers):
+    return make_re(I, env, _run_bundlers=dict(bundlers), scan_id_source=I.get_function(f"{MR}:default_scan_id_source"),
+                   md_validator=I.get_function(f"{MR}:_default_md_validator"), md_normalizer=I.get_function(f"{MR}:_default_md_normalizer"))
 
 
 @task("_open_run.duplicate_key", PROP, functions=[f"{RE}._open_run"],
@@ -83,14 +145,14 @@ def open_duplicate(I):
     env = Env(I)
     install_tracer(I, [])
     log = []
-    bundlers = {None: fake_bundler(log, "default"), "a": fake_bundler(log, "a")}
-    re_ = make_re(I, env, _run_bundlers=dict(bundlers), scan_id_source=I.get_function(f"{MR}:default_scan_id_source"),
-                  md_validator=I.get_function(f"{MR}:_default_md_validator"), md_normalizer=I.get_function(f"{MR}:_default_md_normalizer"))
-    key = w.choose([None, "a"], "key")
+    bundlers = {k: fake_bundler(log, NAMES[k]) for k in OPEN_KEYS}
+    re_ = _open_re(I, env, bundlers)
+    key = w.choose(OPEN_KEYS, "key")
     r = call_async(I, I.getattr(re_, "_open_run"), MsgVal("open_run", None, (), {}, key))
     w.check(f"{RE}._open_run#ensures[a key that is already open is rejected; open runs undisturbed, nothing emitted]",
             r[0] == "raise" and exc_is(I, r[1], IMS) and log == [] and env.emitted == [] and all(re_._run_bundlers[k] is bundlers[k] for k in bundlers)
-            and set(re_._run_bundlers) == set(bundlers) and re_._run_start_uids == [], {"replay": "runkeys.independent"})
+            and len(re_._run_bundlers) == len(bundlers) and re_._run_start_uids == [] and "scan_id" not in re_.md,
+            {"replay": "runkeys.frame", "handler": "_open_run", "key": NAMES[key], "open": "all"})
 
 
 @task("_open_run.new_key", PROP, functions=[f"{RE}._open_run"],
@@ -100,37 +162,414 @@ def open_new(I):
     env = Env(I)
     install_tracer(I, [])
     log = []
-    bundlers = {None: fake_bundler(log, "default")}
-    re_ = make_re(I, env, _run_bundlers=dict(bundlers), scan_id_source=I.get_function(f"{MR}:default_scan_id_source"),
-                  md_validator=I.get_function(f"{MR}:_default_md_validator"), md_normalizer=I.get_function(f"{MR}:_default_md_normalizer"))
-    r = call_async(I, I.getattr(re_, "_open_run"), MsgVal("open_run", None, (), {}, "a"))
+    # a key is new when no *equal* key is open: a falsy key next to the open default run, the default key next to an open falsy one
+    first, key = w.choose([(None, "a"), (None, 0), (None, ""), (0, None), (0, ""), ("a", 0)], "open key, new key")
+    bundlers = {first: fake_bundler(log, NAMES[first])}
+    re_ = _open_re(I, env, bundlers)
+    r = call_async(I, I.getattr(re_, "_open_run"), MsgVal("open_run", None, (), {}, key))
     starts = [d for n, d in env.emitted if n == "start"]
     w.check(f"{RE}._open_run#ensures[a new key gets its own bundler; the other runs are untouched]",
-            r[0] == "ok" and log == [] and re_._run_bundlers[None] is bundlers[None] and set(re_._run_bundlers) == {None, "a"}
-            and len(starts) == 1 and starts[0]["uid"] == r[1] and re_._run_bundlers["a"]._run_start_uid == r[1], {"replay": "runkeys.independent"})
+            r[0] == "ok" and log == [] and re_._run_bundlers[first] is bundlers[first] and len(re_._run_bundlers) == 2 and key in re_._run_bundlers
+            and len(starts) == 1 and starts[0]["uid"] == r[1] and re_._run_bundlers[key]._run_start_uid == r[1],
+            {"replay": "runkeys.frame", "handler": "_open_run", "key": NAMES[key], "open": NAMES[first]})
 
 
-@task("_set_run_key", PROP, functions=["bluesky.preprocessors:set_run_key_wrapper", "bluesky.preprocessors:set_run_key_wrapper._set_run_key"],
-      expect=["bluesky.preprocessors:set_run_key_wrapper._set_run_key#ensures[only a missing run key is filled in; all other fields kept]"])
+# ------------------------------------------------------------------------------------------------ K: set_run_key_wrapper
+KEY_KINDS = ["int", "str", "object", "empty-tuple", "false"]
+
+
+def run_key(w, kind, name):
+    """a run key of the given kind: symbolic where the language has a symbolic value of that kind, else a representative"""
+    if kind == "int":
+        return w.int(f"{name}_int")                    # any integer, 0 included
+    if kind == "str":
+        return w.str(f"{name}_str")                    # any string, '' included
+    if kind == "object":
+        return Opaque(name, {"token": "key", "truth": "sym", "isinstance_default": False})     # an object of arbitrary truth value
+    return {"empty-tuple": (), "false": False}[kind]
+
+
+def same_key(got, want):
+    if isinstance(want, Sym):
+        return Eq(got, want) if isinstance(got, Sym) else False
+    return got is want or (isinstance(want, tuple) and got == want)
+
+
+SRK = f"{PP}:set_run_key_wrapper._set_run_key#ensures[a message that carries a run key - any value but None - keeps it; an un-keyed one gets the innermost wrapper's key; other fields kept]"
+
+
+@task("_set_run_key", PROP, functions=[f"{PP}:set_run_key_wrapper", f"{PP}:set_run_key_wrapper._set_run_key", f"{PP}:msg_mutator"],
+      expect=[SRK, f"{PP}:set_run_key_wrapper#raises[ValueError for run=None]", f"{PP}:set_run_key_wrapper#ensures[the RunEngine's answer reaches the plan]"])
 def set_run_key(I):
     w = I.w
-    has = w.choose([False, True], "message already has a run key")
+    own = w.choose(["none"] + KEY_KINDS, "run key carried by the message")
+    inner = w.choose(KEY_KINDS, "key of the (inner) wrapper")
+    depth = w.choose([1, 2], "nesting depth")
+    k_own = None if own == "none" else run_key(w, own, "msg_key")
+    k_inner = run_key(w, inner, "inner_key")
     obj = Opaque("dev", {"token": "dev"})
-    msg = MsgVal("read", obj, (1,), {"k": 2}, "mine" if has else None)
-    out = []
+    msg = MsgVal("read", obj, (1,), {"k": 2}, k_own)
     m = __import__("pyvc.bisim", fromlist=["reference_module"]).reference_module(I.P, "verif_c14_plan", "def one(m):\n    r = yield m\n    return r\n")
-    plan = I.call_value(I.global_lookup(m, "one"), msg)
-    g = I.call_value(I.get_function("bluesky.preprocessors:set_run_key_wrapper"), plan, "wrapped")
-    o = g.resume(("send", None))
+    wrap = I.get_function(f"{PP}:set_run_key_wrapper")
+    g = I.call_value(wrap, I.call_value(I.global_lookup(m, "one"), msg), k_inner)
+    if depth == 2:
+        g = I.call_value(wrap, g, "outer")
+    rp = {"replay": "runkeys.set_run_key", "own": own, "inner": inner, "depth": depth}
+    try:
+        o = g.resume(("send", None))
+    except PyRaise as pr:
+        w.fail(SRK, dict(rp, raised=repr(pr.exc)))          # every value but None is a valid key for the wrapper too
+        return
     got = o[1]
     ok = o[0] == "yield" and isinstance(got, MsgVal) and got.command == "read" and got.obj is obj and got.args == (1,) and got.kwargs == {"k": 2}
-    w.check("bluesky.preprocessors:set_run_key_wrapper._set_run_key#ensures[only a missing run key is filled in; all other fields kept]",
-            ok and got.run == ("mine" if has else "wrapped") and (got is msg if has else True), {"replay": "runkeys.independent"})
-    bad = catch(I, lambda: None) if False else None
-    gen2 = I.call_value(I.get_function("bluesky.preprocessors:set_run_key_wrapper"), I.call_value(I.global_lookup(m, "one"), msg), None)
+    if ok:
+        ok = And(same_key(got.run, k_own), got is msg) if own != "none" else same_key(got.run, k_inner)
+    w.check(SRK, ok, rp)
+    answer = Opaque("answer", {"token": "answer"})
+    try:
+        o2 = g.resume(("send", answer))
+    except PyRaise as pr:
+        o2 = ("raise", pr.exc)
+    w.check(f"{PP}:set_run_key_wrapper#ensures[the RunEngine's answer reaches the plan]", o2[0] == "return" and o2[1] is answer, rp)
+    gen2 = I.call_value(wrap, I.call_value(I.global_lookup(m, "one"), msg), None)
     try:
         gen2.resume(("send", None))
         raised = None
     except PyRaise as pr:
         raised = pr.exc
-    w.check("bluesky.preprocessors:set_run_key_wrapper#raises[ValueError for run=None]", raised is not None and exc_is(I, raised, "ValueError"))
+    w.check(f"{PP}:set_run_key_wrapper#raises[ValueError for run=None]", raised is not None and exc_is(I, raised, "ValueError"))
+
+
+@task("_set_run_key.twin", PROP, twin="twin:an enclosing wrapper re-keys every message")
+def set_run_key_twin(I):
+    w = I.w
+    msg = MsgVal("read", None, (), {}, w.int("msg_key_int"))
+    m = __import__("pyvc.bisim", fromlist=["reference_module"]).reference_module(I.P, "verif_c14_plan", "def one(m):\n    r = yield m\n    return r\n")
+    g = I.call_value(I.get_function(f"{PP}:set_run_key_wrapper"), I.call_value(I.global_lookup(m, "one"), msg), "outer")
+    o = g.resume(("send", None))
+    w.check("twin:an enclosing wrapper re-keys every message", o[0] == "yield" and o[1].run == "outer")
+
+
+BASE = f"{PP}:baseline_wrapper#ensures[the baseline readings inserted after open_run / before close_run of a keyed run carry that run's key - any value but None; the plan's own messages pass unchanged]"
+
+
+@task("baseline_wrapper.run_key", PROP, functions=[f"{PP}:baseline_wrapper", f"{PP}:plan_mutator", f"{PP}:set_run_key_wrapper", f"{PP}:msg_mutator"],
+      expect=[BASE], covers=["baseline readings inserted for a keyed run"])
+def baseline_run_key(I):
+    """the one preprocessor that inserts messages *for a keyed run*: with two interleaved runs (keys of any kind) every inserted baseline
+    message must go to the run whose open_run / close_run triggered it (declare_stream / trigger_and_read are abstract plans of un-keyed
+    messages, as plan_stubs writes them)"""
+    w = I.w
+    kinds = w.choose([("int", "str"), ("str", "object"), ("object", "false"), ("empty-tuple", "int"), ("none", "str"), ("int", "none")], "kinds of the two run keys")
+    keys = [None if k == "none" else run_key(w, k, f"key{i}") for i, k in enumerate(kinds)]
+    m = __import__("pyvc.bisim", fromlist=["reference_module"]).reference_module(
+        I.P, "verif_c14_seq", "def seq(msgs):\n    out = []\n    for m in msgs:\n        out.append((yield m))\n    return out\n")
+    seq = I.global_lookup(m, "seq")
+    dev = Opaque("bdev", {"token": "dev", "truth": True, "isinstance_default": False})
+    inserted = []
+
+    def stub(cmds):
+        def f(I_, a, k):
+            ms = [MsgVal(c, dev if c != "create" else None, (), {"name": k.get("name")} if c in ("create", "declare_stream") else {}, None) for c in cmds]
+            inserted.extend(ms)
+            return I_.call_value(seq, ms)
+        return native(f)
+    w.stubs[(PP, "declare_stream")] = stub(["declare_stream"])
+    w.stubs[(PP, "trigger_and_read")] = stub(["trigger", "create", "read", "save"])
+    user = [MsgVal("open_run", None, (), {}, keys[0]), MsgVal("open_run", None, (), {}, keys[1]), MsgVal("checkpoint", None, (), {}, None),
+            MsgVal("close_run", None, (), {}, keys[0]), MsgVal("close_run", None, (), {}, keys[1])]
+    g = I.call_value(I.get_function(f"{PP}:baseline_wrapper"), I.call_value(seq, user), [dev])
+    got, tok = [], ("send", None)
+    rp = {"replay": "runkeys.baseline", "kinds": list(kinds)}
+    try:
+        while len(got) < 40:
+            o = g.resume(tok)
+            if o[0] != "yield":
+                break
+            got.append(o[1])
+            tok = ("send", None)
+    except PyRaise as pr:
+        w.fail(BASE, dict(rp, raised=repr(pr.exc)))
+        return
+    # from the statement: open(k0) [declare, trigger, create, read, save]@k0  open(k1) [..5..]@k1  checkpoint  [trigger, create, read, save]@k0 close(k0)  [..4..]@k1 close(k1)
+    want = [("open_run", 0, True)] + [(c, 0, False) for c in ("declare_stream", "trigger", "create", "read", "save")] \
+        + [("open_run", 1, True)] + [(c, 1, False) for c in ("declare_stream", "trigger", "create", "read", "save")] + [("checkpoint", None, True)] \
+        + [(c, 0, False) for c in ("trigger", "create", "read", "save")] + [("close_run", 0, True)] + [(c, 1, False) for c in ("trigger", "create", "read", "save")] + [("close_run", 1, True)]
+    ok = len(got) == len(want) and all(isinstance(x, MsgVal) and x.command == c for x, (c, r, own) in zip(got, want))
+    conds = []
+    if ok:
+        w.cover("baseline readings inserted for a keyed run")
+        for x, (c, r, own) in zip(got, want):
+            k = None if r is None else keys[r]
+            conds.append(x.run is None if k is None else same_key(x.run, k))
+            if own:
+                conds.append(any(x is u for u in user))
+    w.check(BASE, And(*conds) if ok and all(c is not False for c in conds) else False, dict(rp, commands=[getattr(x, "command", None) for x in got]))
+
+
+# ------------------------------------------------------------------------------------------------ I: interleaved runs under a rewind
+MBQ = f"{MB}:RunBundler"
+PAIRS = {"default+str": (None, "b"), "str+zero": ("a", 0), "zero+default": (0, None), "empty+str": ("", "b")}
+SHAPES = {"-": [], "A": ["A"], "B": ["B"], "AB": ["A", "B"], "BA": ["B", "A"], "AA": ["A", "A"]}
+NUM = f"{RE}._rewind#ensures[interleaved runs: after any checkpoint, events of either run, a rewind and the replay, each run's replayed events get the seq_nums they had and its stop counts its own events]"
+OWN = f"{RE}#ensures[interleaved runs: every document produced by a message belongs to the run of the message's key and to no other run]"
+SNAP = f"{RE}#ensures[interleaved runs: whenever the engine forgets the messages executed so far (a checkpoint, explicit or caused by the other run), every open run's snapshot is its current numbering]"
+DUP = f"{RE}._open_run#ensures[a duplicate open_run between the events of interleaved runs is rejected and changes nothing]"
+
+
+def real_run(I, env, tag):
+    """a real, opened RunBundler with a declared stream 'primary' over one device and symbolic counters 1 <= snap <= next"""
+    w = I.w
+    b, uid = opened_bundler(I, env)
+    dname = f"det{tag}"
+    reads = []
+
+    def read(I_, o, a, k):
+        v = w.real(f"reading{tag}", fresh=True)
+        reads.append(v)
+        return {dname: {"value": v, "timestamp": w.real(f"ts{tag}", fresh=True)}}
+    dev = Opaque(dname, {"token": "dev", "attrs": {"name": dname, "hints": {"fields": [dname]}}, "truth": True, "isinstance_default": False,
+                         "hasattr": {"hints": True}, "methods": {"read": read}})
+    for cache in ("_config_values_cache", "_config_ts_cache", "_config_desc_cache"):
+        b.attrs[cache][dev] = {}
+    dks = {dname: {"dtype": "number", "shape": [], "source": "dev"}}
+    b._describe_cache[dev] = dks
+    r = call_async(I, I.getattr(b, "_prepare_stream"), "primary", {dev: dks})
+    if r[0] != "ok":
+        raise EngineError(f"_prepare_stream failed in harness: {r[1].attrs}")
+    n, s = w.int(f"next_{tag}"), w.int(f"snap_{tag}")
+    w.add(And(s >= 1, s <= n))
+    I.getattr(b, "_sequence_counters")["primary"] = n           # (I.getattr: wherever the class keeps them)
+    I.getattr(b, "_sequence_counters_copy")["primary"] = s
+    return {"b": b, "uid": uid, "dev": dev, "desc": r[1][0]["uid"], "next": n, "snap": s, "tag": tag}
+
+
+def _mk_interleaved(M):
+    @task(f"interleaved.rewind[{M}]", PROP,
+          functions=[f"{RE}.{n}" for n in ("_create", "_read", "_save", "_close_run", "_checkpoint", "_rewind", "_open_run", "_reset_checkpoint_state_meth",
+                                          "_reset_checkpoint_state_coro")]
+          + [f"{MBQ}.{n}" for n in ("create", "read", "save", "close_run", "rewind", "reset_checkpoint_state")] + ["bluesky.utils:ensure_generator"],
+          expect=[NUM, OWN, DUP, SNAP], covers=["a replayed event", "a run closed before the interruption"] if M == "close_run_B" else ["a replayed event"],
+          bounded=None)
+    def t(I):
+        w = I.w
+        env = Env(I)
+        install_tracer(I, [])
+        pair = w.choose(list(PAIRS), "run keys (A, B)")
+        shape = w.choose(list(SHAPES), "events between the checkpoint and the interruption")
+        cache0 = w.choose(["messages", "empty"], "message cache before the checkpoint")
+        dup = w.choose([False, True], "a duplicate open_run is attempted")
+        ka, kb = PAIRS[pair]
+        w.stubs[(MR, "check_supports")] = native(lambda I_, a, k: a[0])
+        w.stubs[(MR, "warn_if_msg_args_or_kwargs")] = native(lambda I_, a, k: None)
+        w.stubs[(MB, "maybe_collect_asset_docs")] = native(lambda I_, a, k: [])
+        w.stubs["asyncio.gather"] = lambda I_, a, k: Ready([run_coro(I_, c) if isinstance(c, GenObj) else c for c in a])
+        I.call_hooks[f"{RE}._close_run_trace"] = lambda I_, f, a, k: ret(None)
+        runs = {"A": real_run(I, env, "A"), "B": real_run(I, env, "B")}
+        key = {"A": ka, "B": kb}
+        old = [MsgVal("null", None, (), {}, None)]
+        re_ = _open_re(I, env, {ka: runs["A"]["b"], kb: runs["B"]["b"]})
+        I.setattr(re_, "_msg_cache", collections.deque(old if cache0 == "messages" else []))
+        if cache0 == "empty":
+            # the coupling invariant between the engine's cache and the runs' snapshots: nothing replayable was executed since the snapshots
+            # were taken (SNAP below re-establishes it at every checkpoint; events only ever make the cache non-empty)
+            w.add(And(Eq(runs["A"]["snap"], runs["A"]["next"]), Eq(runs["B"]["snap"], runs["B"]["next"])))
+        I.setattr(re_, "_deferred_pause_requested", False)
+        env.emitted.clear()
+        rp = {"replay": "runkeys.interleaved", "keys": pair, "shape": SHAPES[shape], "checkpoint": M, "dup": dup, "cache": cache0}
+        problems = []
+
+        def execute(msg, replaying=False):
+            """what _run does with one message (C04 INV): cache it if replayable, dispatch it to its handler"""
+            cache = I.getattr(re_, "_msg_cache")
+            if cache is not None and msg.command not in ("open_run", "close_run", "monitor", "unmonitor"):
+                cache.append(msg)
+            r = call_async(I, I.getattr(re_, "_" + msg.command), msg)
+            if r[0] != "ok":
+                problems.append((msg.command, msg.run, repr(r[1])))
+            return r
+
+        # ---- the checkpoint: explicit, or implicit through a message of run B
+        if M == "close_run_B":
+            execute(MsgVal("close_run", None, (), {}, kb))
+            w.cover("a run closed before the interruption")
+            open_now = ["A"]
+        else:
+            execute(MsgVal("checkpoint", None, (), {}, None))
+            open_now = ["A", "B"]
+        cache = I.getattr(re_, "_msg_cache")
+        emptied = cache is not None and len(cache) == 0
+        w.check(SNAP, And(emptied,
+                          *[And(Eq(I.getattr(runs[R]["b"], "_sequence_counters_copy").get("primary"), runs[R]["next"]),
+                                Eq(I.getattr(runs[R]["b"], "_sequence_counters").get("primary"), runs[R]["next"])) for R in open_now]), rp)
+        if not emptied:
+            # (`old` stands for whatever was executed between the snapshots and this checkpoint; it is only sound as long as it is never replayed)
+            raise PathEnd("reported: the checkpoint did not empty the message cache")
+        # ---- events of the open runs, a rejected duplicate open_run in between
+        taken = {"A": [], "B": []}       # run -> list of readings, in the order taken
+        n_before = len(env.emitted)
+        for i, R in enumerate([x for x in SHAPES[shape] if x in open_now]):
+            if dup and i == 0:
+                before = (len(env.emitted), dict(re_._run_bundlers), list(re_._run_start_uids), dict(re_.md))
+                r = call_async(I, I.getattr(re_, "_open_run"), MsgVal("open_run", None, (), {}, key[R]))
+                now = I.getattr(re_, "_run_bundlers")
+                if not w.check(DUP, r[0] == "raise" and exc_is(I, r[1], IMS) and len(env.emitted) == before[0] and len(now) == len(before[1])
+                               and all(now[k] is v for k, v in before[1].items()) and list(re_._run_start_uids) == before[2] and dict(re_.md) == before[3], rp):
+                    raise PathEnd("reported")         # (the open runs are no longer what the rest of the path assumes)
+            execute(MsgVal("create", None, (), {"name": "primary"}, key[R]))
+            execute(MsgVal("read", runs[R]["dev"], (), {}, key[R]))
+            execute(MsgVal("save", None, (), {}, key[R]))
+            taken[R].append(R)
+        first_pass = list(env.emitted[n_before:])
+        # ---- the interruption: resume / a suspension rewind and replay what _rewind hands back
+        r = catch(I, I.getattr(re_, "_rewind"))
+        if r[0] != "ok":
+            w.fail(NUM, dict(rp, raised=repr(r[1])))
+            return
+        gen, replayed = r[1], []
+        while len(replayed) <= 3 * len(SHAPES[shape]) + 2:
+            out = catch(I, I.getattr(gen, "send"), None)
+            if out[0] == "raise":
+                break
+            replayed.append(out[1])
+        n_mid = len(env.emitted)
+        for m_ in replayed:
+            execute(m_, True)
+            if m_.command == "save":
+                w.cover("a replayed event")
+        second_pass = list(env.emitted[n_mid:])
+        for R in open_now:
+            execute(MsgVal("close_run", None, (), {}, key[R]))
+        # ---- run by run: documents grouped by run_start
+        if problems:
+            w.fail(NUM, dict(rp, raised=problems))
+            return
+        num_ok, own_ok = [], []
+        for R in ("A", "B"):
+            run = runs[R]
+            other = runs["B" if R == "A" else "A"]
+            k = len([x for x in SHAPES[shape] if x == R and R in open_now])
+            mine1 = [d for n, d in first_pass if n == "event" and d["descriptor"] == run["desc"]]
+            mine2 = [d for n, d in second_pass if n == "event" and d["descriptor"] == run["desc"]]
+            stops = [d for n, d in env.emitted if n == "stop" and d["run_start"] == run["uid"]]
+            own_ok.append(len(mine1) == k and len(mine2) == k and len(stops) == 1)
+            if not own_ok[-1]:
+                continue
+            for i in range(k):
+                num_ok.append(Eq(mine1[i]["seq_num"], run["next"] + i))
+                num_ok.append(Eq(mine2[i]["seq_num"], run["next"] + i))         # the replayed event re-uses the number it had
+                own_ok.append(set(mine1[i]["data"]) == {f"det{R}"} and set(mine2[i]["data"]) == {f"det{R}"})
+            num_ok.append(set(stops[0]["num_events"]) == {"primary"})
+            if set(stops[0]["num_events"]) == {"primary"}:
+                num_ok.append(Eq(stops[0]["num_events"]["primary"], run["next"] - 1 + k))
+        n_events = len([1 for n, d in env.emitted if n == "event"])
+        own_ok.append(n_events == 2 * len([x for x in SHAPES[shape] if x in open_now]))
+        own_ok.append(all(n in ("event", "stop") for n, d in env.emitted))
+        w.check(OWN, all(own_ok), rp)
+        w.check(NUM, And(*num_ok) if all(x is not False for x in num_ok) else False, rp)
+    return t
+
+
+for _M in ("close_run_B", "checkpoint"):
+    _mk_interleaved(_M)
+
+
+# ------------------------------------------------------------------------------------------------ T2: two run keys under pauses / suspensions / aborts
+# The real _run / __call__ / resume / abort / stop / halt / request_pause / request_suspend under the asyncio model (contracts/t2.py) with an
+# arbitrary plan over open_run / close_run messages of two different run keys (a string and the falsy key 0), abstract bundlers (contract of
+# RunBundler) and every schedule of the environment: what an interruption does to one open run it does to every open run.
+from . import t2 as _t2   # noqa: E402
+
+for _cmd in ("open_run", "close_run"):
+    for _k in ("a", 0):
+        _t2.ALPHABET[f"{_cmd}@{_k}"] = _t2.msg(_cmd, run=_k)
+TRUSTED = TRUSTED + [a for a in _t2.TRUSTED_T2 if a not in TRUSTED] + [
+    "T2: A-ENV: at most one request of another thread is in flight at a time; A-RUNS: a plan opens at most two runs per scenario"]
+T2_KINDS = ("record_interruption", "suspend_monitors", "restore_monitors", "rewind", "reset_checkpoint_state", "clear_checkpoint", "clear_monitors")
+ALIKE = f"{RE}._run#invariant[concurrent runs: whatever an interruption does to one open run (interruption record, monitors suspended / restored, rewind, checkpoint reset / clear) it does to every open run]"
+LIFE = f"{RE}._run#ensures[concurrent runs: when the engine is idle again every run that was opened has been closed exactly once]"
+BYKEY = f"{RE}._close_run#ensures[concurrent runs: a close_run message of the plan closes the run opened under its key]"
+
+
+class C14Runs:
+    """ghost: per pair (older, younger) of open runs and per kind of step, (#steps the older got since the younger opened) - (#steps the
+    younger got); the engine performs these steps in loops over all open runs without a scheduling point in between, so at every
+    scheduling point each difference is 0.  The differences are part of the closure key."""
+
+    def __init__(self, sc, tr):
+        self.sc, self.tr, self.w, self.eng = sc, tr, sc.w, sc.eng
+        self.lag = {}
+        self.key_of = {}
+        self.closed = {}
+        self.stepped = False
+
+    def canon(self, cn):
+        return ("C14", tuple(sorted((p, tuple(sorted(d.items()))) for p, d in self.lag.items())), tuple(sorted(self.closed.items())))
+
+    def compare(self, info, pairs):
+        """at a scheduling point, and when one of the two runs is closed"""
+        w = self.w
+        uneven = sorted((p, k, v) for p in pairs for k, v in self.lag[p].items() if v)
+        if uneven:
+            w.check(ALIKE, False, dict(info, uneven=[f"run #{p[0]} got {abs(v)} {k} {'more' if v > 0 else 'fewer'} than run #{p[1]}" for p, k, v in uneven], step=uneven[0][1]))
+            raise PathEnd("reported")
+        if pairs and self.stepped:
+            w.ok(ALIKE)                   # (two runs open and at least one such step was compared)
+
+    def __call__(self, kind, *a):
+        w, eng = self.w, self.eng
+        info = {"requests": list(self.sc.requests), "replay": "lifecycle.replay"}
+        if kind == "open_run":
+            b = a[0]
+            self.key_of[b.idx] = a[1].run
+            self.closed[b.idx] = 0
+            for o in eng.bundlers:
+                if o is not b and o.open:
+                    self.lag[(o.idx, b.idx)] = {}
+        elif kind == "close_run":
+            b, m = a
+            self.closed[b.idx] = self.closed.get(b.idx, 0) + 1
+            self.compare(info, [p for p in self.lag if b.idx in p])
+            for p in [p for p in self.lag if b.idx in p]:
+                del self.lag[p]
+            if "exit_status" not in m.kwargs:          # (a close_run of the plan; the epilogue's own close_run messages are covered by LIFE)
+                w.check(BYKEY, b.idx in self.key_of and m.run == self.key_of[b.idx] and type(m.run) is type(self.key_of[b.idx]), dict(info, key=repr(m.run)))
+        elif kind in T2_KINDS and a and isinstance(a[0], _t2.Bundler):
+            b = a[0]
+            for (o, y), d in self.lag.items():
+                if b.idx == o:
+                    d[kind] = d.get(kind, 0) + 1
+                elif b.idx == y:
+                    d[kind] = d.get(kind, 0) - 1
+                if d.get(kind) == 0:
+                    del d[kind]
+                    self.stepped = True
+        elif kind == "cut":
+            self.compare(info, list(self.lag))
+        elif kind == "returned" and eng.state == "idle":
+            still = [b.idx for b in eng.bundlers if b.open]
+            w.check(LIFE, not still and all(self.closed.get(b.idx) == 1 for b in eng.bundlers), dict(info, open=still, closed=dict(self.closed)))
+
+
+def _c14_runs(sc, tr):
+    tr.checks.append(C14Runs(sc, tr))
+
+
+T2_SCENARIOS = [
+    ("open_run@a,open_run@0,close_run@a,close_run@0,checkpoint", "pause", {"max_requests": 1}),
+    ("open_run@a,open_run@0,close_run@0,custom", "suspend", {"max_requests": 1}),
+    ("open_run@a,open_run@0,close_run@a,clear_checkpoint", "abort", {"max_requests": 1}),
+]
+if os.environ.get("VERIF_TIER") == "thorough":
+    T2_SCENARIOS += [("open_run@a,open_run@0,close_run@a,close_run@0,checkpoint", "pause,suspend", {"max_requests": 2})]
+_t2.t2_tasks(PROP, "two-keys", T2_SCENARIOS, [_c14_runs], expect=[ALIKE, LIFE, BYKEY])
+
+
+def _t2_twin(sc, tr):
+    def check(kind, *a):
+        if kind == "record_interruption":
+            sc.w.check("twin:an interruption is recorded in at most one run", not any(b.open and b is not a[0] for b in sc.eng.bundlers))
+    tr.checks.append(check)
+
+
+_t2.t2_tasks(PROP, "twin", [("open_run@a,open_run@0", "pause", {"max_requests": 1})], [_t2_twin], twin="twin:an interruption is recorded in at most one run")
